@@ -235,6 +235,44 @@ def run(props, tier, seed):
                         if os.path.exists(outp) and os.path.exists(libp):
                             a, l = open(outp).read(), open(libp).read()
                             b.check('C17.detect.same-output-as-library', a == l, w, 'cli %r library %r' % (a[:200], l[:200]))
+                # ---------------- detect to standard output ('-' as the output file, as documented) ----------------
+                argv = ['detect', path, tight, '-']
+                w = dict(w0, argv=argv)
+                b.case(('cli', name, fmt, 'detect-to-stdout'))
+                libp = os.path.join(top, 'det_lib.csv')
+                if os.path.exists(libp):
+                    os.unlink(libp)
+                code, out, err, exc = run_cli(argv)
+                b.check('C17.detect.noraise', exc is None, w, '%r %s' % (exc, err[-300:]))
+                try:
+                    detect_df(load_df(path), tight, outpath=libp, per_constraint=True, output_fields=[], in_place=False,
+                              report='records', rownumber_is_index=False)
+                    lib_text = open(libp).read() if os.path.exists(libp) else None
+                except Exception as e:
+                    b.check('C17.library.detect.noraise', False, w, repr(e)[:200])
+                    lib_text = None
+                if exc is None and lib_text is not None:
+                    b.check('C17.detect.same-output-as-library', lib_text.strip() in out.replace('\r\n', '\n'), w,
+                            'stdout %r, library file %r' % (out[-300:], lib_text[:200]))
+        # ---------------- a CSV file with its metadata file next to it ----------------
+        import json as _json
+        mdcsv = os.path.join(top, 'withmd.csv')
+        pd.DataFrame({'k': [1, 2, 3], 'v': [0.5, 1.5, 2.5]}).to_csv(mdcsv, index=False)
+        plain = os.path.join(top, 'plainmd.csv')
+        shutil.copy(mdcsv, plain)
+        with open(os.path.join(top, 'withmd.csv-metadata.json'), 'w') as fh:
+            _json.dump({'@context': 'http://www.w3.org/ns/csvw', 'url': 'withmd.csv',
+                        'tableSchema': {'columns': [{'name': 'k', 'datatype': 'integer'},
+                                                    {'name': 'v', 'datatype': 'number'}]}}, fh)
+        mdt, plt = os.path.join(top, 'withmd.tdda'), os.path.join(top, 'plainmd.tdda')
+        w = {'case': 'CSV file with withmd.csv-metadata.json (CSVW, same types as the plain reader infers) next to it'}
+        b.case(('cli', 'associated-metadata'))
+        code, out, err, exc = run_cli(['discover', mdcsv, mdt])
+        b.check('C17.discover.noraise', exc is None and code in (None, 0), w, '%r %r %s' % (code, exc, err[-300:]))
+        code2, _, _, exc2 = run_cli(['discover', plain, plt])
+        if exc is None and exc2 is None and os.path.exists(mdt) and os.path.exists(plt):
+            b.check('C17.discover.same-constraints-as-library', fields_of(open(mdt).read()) == fields_of(open(plt).read()), w,
+                    'with the metadata file %r, without %r' % (fields_of(open(mdt).read()), fields_of(open(plt).read())))
         # ---------------- error invocations ----------------
         good = os.path.join(top, 'nums.csv')
         good_tdda = os.path.join(top, 'nums_csv.tdda')
